@@ -12,6 +12,8 @@ alone and together with the others (metamorphic).
 import asyncio
 import threading
 
+import elasticsearch
+
 from hypothesis import strategies as st
 
 from esrally import track
@@ -27,19 +29,21 @@ TECHNIQUE = "property-based testing on a virtual-time simulator: generated conte
 RULE = (
     "Generated: (tree) context trees of depth <= 3, fan-out <= 4, children sequential or concurrent asyncio tasks, every context issues "
     ">= 1 wire request in its subtree (1-3 per leaf with drawn delay before the first send, service time, gaps), 1-3 clients in one "
-    "loop, some sub-requests fail after having been on the wire (their parent handles the error); (composite) operation type 'composite' "
-    "with nested streams (in a class one sub-request fails while sibling streams are on the wire and the client carries on with 1-2 further requests) or a sequential list whose k-th operation fails with HTTP 503 under on-error=continue, 1-3 leaf operations per stream, max-connections in "
+    "loop, some sub-requests fail after having been on the wire (their parent handles the error), some contexts' last wire request gets no response (client-side timeout after earlier ones were answered); (composite) operation type 'composite' "
+    "with nested streams (in a class one sub-request fails while sibling streams are on the wire and the client carries on with 1-2 further requests) or a sequential list whose k-th operation fails with HTTP 503 (or whose last wire request times out) under on-error=continue, 1-3 leaf operations per stream, max-connections in "
     "{unbounded,1,2}, run by the real AsyncExecutor for 1-3 clients. Non-trivial = some context has >= 2 concurrent children and the "
     "child that ends first is not the one that started first. Distinct = distinct canonical JSON."
 )
 ASSUMPTIONS = [
-    "the endpoint marks request start/end exactly where the real client's trace hooks do",
+    "the endpoint raises aiohttp's trace signals (request start; request end at the headers; one chunk received per body chunk; request exception for a "
+    "request that gets no response) and the callbacks that the real EsClientFactory.create_async registered for them stamp the request context",
     "leaf operations of a composite issue at least one wire request (all operation types a composite accepts do); in the tree kind a nested context may send nothing",
     "instants are dyadic rationals; exact comparison with 1e-9 tolerance",
 ]
 BUDGET = {"quick": 2500, "thorough": 20000}
 REQUIRED_CLASSES = {"concurrent-first-end-not-first-start": 100, "composite": 500, "multi-client": 500, "failing-sub-request": 200, "empty-nested-context": 100,
                     "failing-sub-request-in-concurrent-streams": 40, "previous-request-still-on-the-wire": 10,
+                    "wire-request-times-out-after-an-answered-one": 60,
                     "nested-context-under-raw-response-context": 100}
 TOL = 1e-9
 
@@ -61,7 +65,11 @@ def _tree(draw, depth):
     if depth == 0 or draw(st.integers(0, 3)) == 0:
         # a nested context may turn out to have nothing to send (a skipped optional step): it contributes nothing to its parent
         empty = depth < 2 and draw(st.integers(0, 7)) == 0
-        return {"mode": "leaf", "wires": [] if empty else draw(_wires()), "post": draw(st.sampled_from(DELAYS)), "children": [], "fails": fails}
+        wires = [] if empty else draw(_wires())
+        # "times_out": the last of this context's wire requests gets no response (client-side timeout) after the earlier ones were answered;
+        # the context is left by that exception, its parent handles it
+        times_out = bool(wires) and depth < 2 and not fails and draw(st.integers(0, 5)) == 0
+        return {"mode": "leaf", "wires": wires, "post": draw(st.sampled_from(DELAYS)), "children": [], "fails": fails, "times_out": times_out}
     n = draw(st.integers(1, 4))
     return {
         "raw": draw(st.integers(0, 3)) == 0,
@@ -109,7 +117,8 @@ def _case(draw):
         # a sequential composite whose k-th sub-request fails (HTTP 5xx after it has been on the wire); under on-error=continue the
         # enclosing request is still recorded and must span everything that was sent
         streams = [x for x in draw(_stream(0, counter)) if "operation-type" in x]
-        streams[draw(st.integers(0, len(streams) - 1))]["sim"]["fails"] = True
+        # (or its last wire request - the next page of a paginated search, say - gets no response at all: "timeout")
+        streams[draw(st.integers(0, len(streams) - 1))]["sim"]["fails"] = draw(st.sampled_from([True, True, "timeout"]))
     else:
         for _ in range(draw(st.integers(1, 3))):
             streams.append({"stream": draw(_stream(1, counter))})
@@ -141,9 +150,17 @@ async def _run_node(es, node, path, out, wires_out):
     with es.new_request_context() as ctx:
         if node.get("raw"):
             es.return_raw_response()  # the runner asks for raw responses in this context (the flag lives next to the timings)
-        for gap, service in node["wires"]:
+        for k, (gap, service) in enumerate(node["wires"]):
             if gap:
                 await asyncio.sleep(gap)
+            if node.get("times_out") and k == len(node["wires"]) - 1:
+                try:
+                    await es.wire(service, {"path": path}, fault=elasticsearch.ConnectionTimeout("sim: no response"))
+                except elasticsearch.ConnectionTimeout as e:
+                    w = e.sim_entry
+                    wires_out.append((path, w["pc_start"], w["pc_end"]))
+                    out[path] = (ctx.request_start, ctx.request_end)
+                    raise _SubRequestFailed()
             w = await es.wire(service, {"path": path})
             wires_out.append((path, w["pc_start"], w["pc_end"]))
         async def child(i, ch):
@@ -234,6 +251,8 @@ def _check_tree(case, obs):
         obs.cls("concurrent-first-end-not-first-start")
     if any(_has_failing(t) for t in trees):
         obs.cls("failing-sub-request")
+    if any(_has_timeout_after_response(t) for t in trees):
+        obs.cls("wire-request-times-out-after-an-answered-one")
     if any(_has_raw_parent(t) for t in case["clients"]):
         obs.cls("nested-context-under-raw-response-context")
     obs.cls("tree")
@@ -246,6 +265,10 @@ def _has_raw_parent(node):
 
 def _has_failing(node):
     return bool(node.get("fails")) or any(_has_failing(ch) for ch in node["children"])
+
+
+def _has_timeout_after_response(node):
+    return (bool(node.get("times_out")) and len(node["wires"]) >= 2) or any(_has_timeout_after_response(ch) for ch in node["children"])
 
 
 def _first_end_not_first_start(node, path, wires):
@@ -282,9 +305,12 @@ class _LeafRunner:
         sim = params["sim"]
         if sim["pre"]:
             await asyncio.sleep(sim["pre"])
-        for gap, service in sim["wires"]:
+        for k, (gap, service) in enumerate(sim["wires"]):
             if gap:
                 await asyncio.sleep(gap)
+            if sim.get("fails") == "timeout" and k == len(sim["wires"]) - 1:
+                # the last page never arrives: the client gives up (the wire request ends with an exception, not with a response)
+                await es.wire(service, {"op": params["name"], "seq": sim.get("seq")}, fault=elasticsearch.ConnectionTimeout("sim: no response"))
             await es.wire(service, {"op": params["name"], "seq": sim.get("seq")})
         if sim["post"]:
             await asyncio.sleep(sim["post"])
@@ -455,6 +481,8 @@ def _check_composite(case, obs):
                 f"client {ci} iteration {k}: service_time {s.service_time}, sub-requests span {e_ref - s_ref} ({s_ref}..{e_ref})",
             )
             failing = any(l["sim"].get("fails") for l in leafs)
+            if any(l["sim"].get("fails") == "timeout" and len(l["sim"]["wires"]) >= 2 for l in leafs):
+                obs.cls("wire-request-times-out-after-an-answered-one")
             if failing:
                 # the runner raised: no sub-request timings are reported, but the request itself is (success: False)
                 obs.check(s.request_meta_data.get("success") is False, "failed-composite-success-flag", f"client {ci}: meta {s.request_meta_data}")
